@@ -513,15 +513,14 @@ def jsStructDecl (api : Api) (file : String) (s : StructD) : Except String Decl 
     .ok { file, scope := none, kind := .typedef, name := (jsName s.q).name, rhs := some (bare "Object"),
           members := tag.toList ++ fields }
 
-/-- `_generate_union`; a union without any tag ends in `fmt_jsdoc_union([])` -/
+/-- `_generate_union`; a union without any tag gets no `.tag` property (`fmt_jsdoc_union` is not called on `[]`) -/
 def jsUnionDecl (api : Api) (file : String) (u : UnionD) : Except String Decl :=
   let tags := unionAllTags api (api.unions.length + 1) u
   let props := tags.filterMap fun t =>
     let ty := (unwrapAll t.ty).1
     if ty = .prim .void then none else some (⟨t.name, jsFmtType api ty, true⟩ : Member)
-  if tags.isEmpty then .error "IndexError: list index out of range"
-  else .ok { file, scope := none, kind := .typedef, name := (jsName u.q).name, rhs := some (bare "Object"),
-             members := props ++ [⟨".tag", .lits (tags.map (·.name)), false⟩] }
+  .ok { file, scope := none, kind := .typedef, name := (jsName u.q).name, rhs := some (bare "Object"),
+        members := props ++ (if tags.isEmpty then [] else [⟨".tag", .lits (tags.map (·.name)), false⟩]) }
 
 def jsTypesE (opts : Opts) (api : Api) : List (Except String Decl) :=
   (jsHeader opts.out).map .ok ++
@@ -623,11 +622,11 @@ def tsdHeader (file : String) : List Decl :=
 def tsdTimestamp (file : String) (scope : Option String) : Decl :=
   { file, scope, kind := .typeAlias, name := "Timestamp", rhs := some (bare "string") }
 
-/-- the property `_generate_struct_type` emits for a field: `unwrap_nullable`, then `fmt_type`; `name?` when the
-field is nullable (at the top) or has a default -/
+/-- the property `_generate_struct_type` emits for a field: `unwrap_nullable`, then `fmt_type` (an alias keeps its
+name); `name?` when the field is nullable at the top, nullable behind aliases (`unwrap`) or has a default -/
 def tsField (api : Api) (ns : String) (f : FieldD) : Member :=
   let u := unwrapNullable f.ty
-  ⟨f.name, tsdFmt api (some ns) true u.1, u.2 || f.hasDefault⟩
+  ⟨f.name, tsdFmt api (some ns) true u.1, u.2 || (unwrapAll f.ty).2 || f.hasDefault⟩
 
 /-- `_generate_struct_type`: the interface, then the `...Reference` interface of a tree member -/
 def tsdStructDecls (api : Api) (file : String) (s : StructD) : List (Except String Decl) :=
@@ -659,10 +658,11 @@ def tsdUnionDecls (api : Api) (file : String) (u : UnionD) : List Decl :=
       ext := if plain then (tsdFmt api (some ns) true t.ty).refs else [],
       members := ⟨".tag", .lits [t.name], false⟩ ::
         (if t.ty ≠ .prim .void && !plain then [⟨t.name, tsdFmt api (some ns) true t.ty, false⟩] else []) }
+  let alts := (u.parent.map (tsdName (some ns))).toList ++ u.tags.map (fun t => ⟨none, variantName u t⟩)
   variants ++
     [{ file, scope := some ns, kind := .typeAlias, name := u.q.name,
-       rhs := some (.union ((u.parent.map (tsdName (some ns))).toList
-                ++ u.tags.map (fun t => ⟨none, variantName u t⟩))) }]
+       -- `' | '.join(variant_type_names) or 'never'`: a union without parent and tags has no values
+       rhs := some (if alts.isEmpty then bare "never" else .union alts) }]
 
 /-- `_generate_alias_type` -/
 def tsdAliasDecl (api : Api) (file : String) (a : AliasD) : Decl :=
